@@ -163,6 +163,18 @@ claim("C19",
 NA_REASON = {}
 
 
+def _rules_sentence(pid):
+    """the rule ids and one-line texts actually armed, taken from the last evidence file of the property"""
+    p = os.path.join(HERE, "evidence", pid + ".json")
+    if not os.path.exists(p):
+        return ""
+    try:
+        rules = json.load(open(p))["coverage"]["rules"]
+    except Exception:
+        return ""
+    return " Structural clauses decided by the rules armed on this tree: " + "; ".join(f"{r['rule']} {r['text']}" for r in rules) + "."
+
+
 def main():
     props = [json.loads(l) for l in open(os.path.join(HERE, "properties.jsonl"))]
     fixes = subprocess.run(["git", "-C", "/repo", "log", "--format=%H %s", "--grep=^fix:"], capture_output=True, text=True).stdout.strip().splitlines()
@@ -199,7 +211,7 @@ def main():
                 "evidence_file": f"/verif/evidence/{pid}.json",
                 "replay_cmd_template": f"./check {pid} --replay {{path}}",
                 "engine": "armiverif",
-                "level_claimed": {"category": "other", "text": c["text"], "design_ref": c["ref"]},
+                "level_claimed": {"category": "other", "text": c["text"] + _rules_sentence(pid), "design_ref": c["ref"] + "; rules as armed: DESIGN.md 8.A"},
                 "level_note": c["note"],
                 "technique": "static analysis: " + c["technique"],
             })
